@@ -847,6 +847,30 @@ func (w *World) dests(op *Op) []int {
 	return d
 }
 
+// retireFailedDest: an operation that fails after it started preparing its reuse / incr tensor may leave
+// that tensor - its named destination, which it is entitled to change - with a shape that no longer fits its
+// storage (handleReuse reshapes before sanity() refuses). What later operations do with such a tensor says
+// nothing about the properties, so the program stops using it (in every world alike).
+func (w *World) retireFailedDest(op *Op) {
+	var rs []int
+	switch op.Mode {
+	case "reuse", "incr", "same-reuse":
+		rs = []int{op.R}
+	case "reuse-incr":
+		rs = []int{op.R, op.R2}
+	}
+	for _, r := range rs {
+		if t := w.get(r); t != nil {
+			w.graveyard = append(w.graveyard, t)
+			for i := range w.slots {
+				if w.slots[i] == t {
+					w.slots[i] = nil
+				}
+			}
+		}
+	}
+}
+
 // Exec runs one operation, recovering panics, and stores a tensor result in op.Out.
 func (w *World) Exec(op *Op) (out Outcome) {
 	w.opArgs = len(w.args)
@@ -862,6 +886,7 @@ func (w *World) Exec(op *Op) (out Outcome) {
 			default:
 				out = Outcome{St: stPanic}
 				w.lastErr = fmt.Sprint(r)
+				w.retireFailedDest(op)
 			}
 		}
 	}()
@@ -870,6 +895,7 @@ func (w *World) Exec(op *Op) (out Outcome) {
 	res, err := w.run(op)
 	if err != nil {
 		w.lastErr = err.Error()
+		w.retireFailedDest(op)
 		return Outcome{St: stErr}
 	}
 	h := uint64(fnvOff)
